@@ -366,7 +366,7 @@ func diffSummary(a, b string) string {
 }
 
 func runC07(c *checker, r *rng.R) {
-	n := 260
+	n := 4000
 	if *tier == "thorough" {
 		n = 6000
 	}
